@@ -629,15 +629,19 @@ def contracts_c02(hints):
         p = 'm%d' % n
         inv_ens = ['ret.is_none() <==> %s_det(*self)@ == 0real' % p,
                    'ret.is_some() ==> %s_mul(*self, ret.unwrap()) == %s_identity() && %s_mul(ret.unwrap(), *self) == %s_identity()' % (p, p, p, p)]
+        def inv_hint(n):
+            # hints name parameters and spec functions only (never the local `det` of the body), and stand at the head of the body
+            d = 'm%d_det(*self)@' % n
+            return 'if %s != 0real { %s }' % (d, hints[('inv', n)].replace('det@', d))
         if tn == 'SquareMatrix' and name == 'determinant':
             return Contract(ensures=['ret == %s_det(*self)' % p], tail=hints[('det', n)], tags=('identity',))
         if tn == 'SquareMatrix' and name == 'invert':
             if n in (2, 3):
-                return Contract(ensures=inv_ens, tags=('identity',), tail='if det@ != 0real { %s }' % hints[('inv', n)])
+                return Contract(ensures=inv_ens, tags=('identity',), pre=inv_hint(n))
             cl = {0: dict(params='i: isize, j: isize', ret='r: Sc', requires=['0 <= i < 4', '0 <= j < 4'],
                           ensures=['r == m4_cf(t, i as int, j as int, inv_det)'],
                           pre='let ij: isize = ((i as isize) + (j as isize)) as isize; assert((ij & 1 == 1) == (ij % 2 == 1)) by(bit_vector) requires 0 <= ij < 8;')}
-            return Contract(ensures=inv_ens, tags=('identity',), closures=cl, tail='if det@ != 0real { %s }' % hints[('inv', n)])
+            return Contract(ensures=inv_ens, tags=('identity',), closures=cl, pre=inv_hint(n))
         if tn == 'Transform' and name == 'inverse_transform':
             return Contract(ensures=inv_ens)
         if tn == 'Transform' and name == 'concat_self':
